@@ -187,6 +187,14 @@ func drawConfig(prop, tier string, c *kernel.Chooser) Config {
 		}
 		cfg.DeviantKind = c.Intn(3)
 	}
+	// rarely: one honest member is handed an EC chain longer than a proposal may be
+	if (prop == "C02" || prop == "C06" || prop == "C07") && cfg.Mode != ModeGoodCase && cfg.N >= 2 && c.Chance(15) {
+		for i, r := range cfg.Roles {
+			if r == Honest && cfg.Powers[0][i] > 0 && (!cfg.OverLong || c.Chance(400)) {
+				cfg.OverLong, cfg.OverLongMember = true, i
+			}
+		}
+	}
 	// network
 	cfg.BaseLatency = []time.Duration{0, cfg.Delta / 20, cfg.Delta / 4, cfg.Delta / 2, cfg.Delta}[c.Intn(5)]
 	cfg.Jitter = []time.Duration{time.Millisecond, cfg.Delta / 10, cfg.Delta, 3 * cfg.Delta}[c.Intn(4)]
